@@ -24,6 +24,7 @@ import (
 	"math/rand"
 	"os"
 	"path/filepath"
+	"runtime"
 	"sort"
 	"strings"
 	"sync"
@@ -43,20 +44,20 @@ import (
 )
 
 type Event struct {
-	Kind   string   `json:"ev"` // xlog keepalive keepalive-bad nil timeout closed-err other-err error-response copy-other param unexpected
-	Wal    uint64   `json:"wal,omitempty"`
-	X      string   `json:"x,omitempty"`   // begin commit change badtext short
-	Txn    string   `json:"txn,omitempty"` // for begin/commit
-	Op     string   `json:"op,omitempty"`  // for change
-	Reply  bool     `json:"reply,omitempty"`
-	Slow   bool     `json:"slow,omitempty"`
-	XLog   uint64   `json:"xlogpos,omitempty"`
+	Kind  string `json:"ev"` // xlog keepalive keepalive-bad nil timeout closed-err other-err error-response copy-other param unexpected
+	Wal   uint64 `json:"wal,omitempty"`
+	X     string `json:"x,omitempty"`   // begin commit change badtext short
+	Txn   string `json:"txn,omitempty"` // for begin/commit
+	Op    string `json:"op,omitempty"`  // for change
+	Reply bool   `json:"reply,omitempty"`
+	Slow  bool   `json:"slow,omitempty"`
+	XLog  uint64 `json:"xlogpos,omitempty"`
 	// error-response only: the recovery fails: "getconn" = the manager has no connection for it,
 	// "identify" = the recovery connection is there and IDENTIFY_SYSTEM fails on it.  Unrecoverable: the
 	// client must stop (C17).
-	RecFail string `json:"rec_fail,omitempty"`
-	Inject []uint64 `json:"inject,omitempty"` // progress values put on the channel inside this receive
-	PClose bool     `json:"pclose,omitempty"` // progress channel closed inside this receive
+	RecFail string   `json:"rec_fail,omitempty"`
+	Inject  []uint64 `json:"inject,omitempty"` // progress values put on the channel inside this receive
+	PClose  bool     `json:"pclose,omitempty"` // progress channel closed inside this receive
 	// The connection dies silently at this message boundary: the fake connection still returns this
 	// event's result but reports IsClosed() from now on, so the (fake) manager reconnects - with
 	// START_REPLICATION at the LSN it is given - at the client's NEXT GetConnWithStartLsn / GetConn call.
@@ -143,6 +144,10 @@ type Obs struct {
 	Key   string `json:"key,omitempty"`
 	Wal   uint64 `json:"wal,omitempty"`
 	Reply bool   `json:"reply_requested,omitempty"`
+	// close only: the call comes from Replicator.shutdown (seen on the call stack) and the termination signal
+	// had NOT been raised when it was entered: a Close that blocks (black-holed peer, full send buffer: usually
+	// the very fault that killed the client) would keep every other stage running for ever
+	BeforeSignal bool `json:"in_shutdown_before_the_signal,omitempty"`
 }
 
 // blockState: the fake keeps the output channel full until the client has sent len(batches)
@@ -154,9 +159,10 @@ type blockState struct {
 }
 
 type world struct {
-	mu       sync.Mutex // every fake callback holds it; the runner takes it only to snapshot a hung case
-	dead     bool       // the runner gave up on this case: callbacks do nothing any more
-	activity int64      // number of fake callbacks so far (atomic): the runner's liveness signal
+	term     context.Context // the shared termination context of the case
+	mu       sync.Mutex      // every fake callback holds it; the runner takes it only to snapshot a hung case
+	dead     bool            // the runner gave up on this case: callbacks do nothing any more
+	activity int64           // number of fake callbacks so far (atomic): the runner's liveness signal
 	blk      *blockState
 	filler   *replication.WalMessage
 	jitter   *rand.Rand // self-test only, see runImpl
@@ -269,7 +275,16 @@ func (m *fakeMgr) Close() {
 		return
 	}
 	w.enter("close")
-	w.log = append(w.log, Obs{K: "close"})
+	o := Obs{K: "close"}
+	if w.term != nil && w.term.Err() == nil {
+		pcs := make([]uintptr, 16)
+		for _, pc := range pcs[:runtime.Callers(2, pcs)] {
+			if f := runtime.FuncForPC(pc); f != nil && strings.HasSuffix(f.Name(), "(*Replicator).shutdown") {
+				o.BeforeSignal = true
+			}
+		}
+	}
+	w.log = append(w.log, o)
 	if w.cur != nil {
 		w.cur.closed = true
 		w.cur = nil
@@ -475,6 +490,7 @@ func runImpl(c Case) (log []Obs, unreliable bool, hungBlocked bool) {
 			w.jitter = rand.New(rand.NewSource(time.Now().UnixNano()))
 		}
 	}
+	w.term = sh.TerminateCtx
 	r := rclient.New(sh, statsCh, mgr, buffer, interval)
 	w.out = r.GetOutputChan()
 	w.lastKA = time.Now()
@@ -872,6 +888,10 @@ func monitor(c Case, log []Obs) []core.Violation {
 			}
 			if o.Fresh && k < 0 && o.Lsn != 0 {
 				add("C03", "initial-start-position-not-server-chosen", fmt.Sprintf("first START_REPLICATION at %d", o.Lsn))
+			}
+		case "close":
+			if o.BeforeSignal {
+				add("C17", "connection-closed-in-shutdown-before-the-termination-signal", fmt.Sprintf("log position %d: Replicator.shutdown closes the replication connection while the shared termination signal is not yet raised: a close that blocks leaves every other stage running behind a dead reader", i))
 			}
 		case "out":
 			if !c.PgLike {
